@@ -90,6 +90,7 @@ type world struct {
 	src     string
 	done    []Op
 	nAsync  int
+	hasImpl bool
 }
 
 var (
@@ -521,6 +522,9 @@ func runHistory(res *vh.Result, tr *vh.Trace, src, bname string, useDao bool, op
 	}
 	w := &world{bname: bname, backend: b, L: []*lay{nil}, useDao: useDao, tr: tr, res: res, src: src}
 	tr.Emit(map[string]any{"event": "init", "src": src, "backend": bname, "dao": useDao})
+	for _, o := range ops {
+		w.hasImpl = w.hasImpl || o.HasImp
+	}
 	for _, o := range ops {
 		if !w.exec(o) {
 			break
@@ -968,7 +972,8 @@ var backends = []string{"memory", "bolt", "leveldb"}
 func (w *world) writeAfterCall(at int, rng storage.SeekRange, call func() <-chan storage.KeyValue, out *[]pair) func() {
 	st := w.L[at].st
 	w.nAsync++
-	if w.nAsync%2 == 1 || rng.SearchDepth != 0 {
+	// (not in histories that carry the code-shaped model's predictions for their later steps: extra writes would turn them into drift)
+	if w.nAsync%2 == 1 || rng.SearchDepth != 0 || w.hasImpl {
 		for kv := range call() {
 			*out = append(*out, pair{ints(kv.Key), ints(kv.Value)})
 		}
